@@ -1,5 +1,12 @@
 """engine conc: the scheduler core driven from several goroutines at once (C14, partial by nature).
 
+(c) atomicity: the lock wrapper also reports the SPLIT critical sections of every run (inside one invocation of a method the
+    lock of its object is released and taken again in write mode); they are compared with the reviewed baseline
+    corpus/conc_split_baseline.json (kind 1420 for a new one; theorem Conc/AtomicProofs.v: no split section => serialisable);
+    the window between the two parts of a split section is widened by seed-driven sleeps; targeted workloads (queue
+    ledgers with RM-side increments / decrements, a tight queue maximum, first use of many users) with strict final-state
+    predicates.
+
 (a) lock-order: the lock wrapper of pkg/locking (build tag verif) traces every lock nesting of the run; the instance-level
     relation is emitted as a Coq term and `acyclic E` is evaluated by vm_compute (theorem: Conc/LockOrderProofs.v).
 (b) validation: watchdog for blocked goroutines, recovered panics / fatal runtime errors, go-deadlock reports on a share of
@@ -7,8 +14,8 @@
 """
 ENGINES = {
     "conc": dict(
-        path="harness/conc.go harness/conc_emit.go coq/Conc coq/Oracles/ConcCheck.v coq/Props/C14.v",
-        about="concurrent stress runs of the real ClusterContext (goroutine structure of the Scheduler service, REST readers, reloads, timers) with traced lock nesting; Coq decides acyclicity of the traced relation and evaluates the C01/C03 predicates on the final state",
+        path="harness/conc.go harness/conc_emit.go harness/conc_split.go coq/Conc coq/Oracles/ConcCheck.v coq/Props/C14.v corpus/conc_split_baseline.json",
+        about="concurrent stress runs of the real ClusterContext (goroutine structure of the Scheduler service, REST readers, reloads, timers) with traced lock nesting and traced split critical sections; Coq decides acyclicity of the traced relation, compares the split sections with the reviewed baseline and evaluates the C01/C03/C05 predicates on the final state",
         n=dict(quick=36, thorough=240), shards=dict(quick=1, thorough=2), search_shards=1,
         kinds={
             1401: dict(cls="oracle", props=["C14"], what="lock-order inversion: the traced lock nesting relation has a cycle (potential deadlock); the replay lists the cycle with object labels and both call stacks per edge"),
@@ -21,9 +28,16 @@ ENGINES = {
             1412: dict(cls="oracle", props=["C14"], what="after quiescence a queue ledger is not the sum over its applications (leaf) / children (parent): lost update (ledger workload, or a run without trigger operation)"),
             1413: dict(cls="oracle", props=["C14"], what="after quiescence a node lists an allocation no live application lists, root allocated differs from the node totals, or ledgers are not back to zero with no application left (ledger workload, or a run without trigger operation)"),
             1414: dict(cls="oracle", props=["C14"], what="after quiescence an application lists an allocation its node does not list"),
+            1420: dict(cls="corr", props=["C14"], what="a split critical section that is not in the reviewed baseline (corpus/conc_split_baseline.json): inside one invocation of a function the lock of an object was released and taken again in write mode (candidate for check-then-act / lost update); the replay lists function, object class, both call stacks"),
+            1421: dict(cls="oracle", props=["C14"], what="after quiescence the usage the user/group manager tracks for a user on a leaf queue differs from the sum over the user's applications there, or an application with usage is not tracked (lost tracker / lost update)"),
+            1422: dict(cls="oracle", props=["C14"], what="after quiescence the usage tracked for a user on a parent queue path differs from the sum over the tracked child paths"),
+            1423: dict(cls="oracle", props=["C14"], what="after quiescence tracked usage is negative, the running-application set of a user on a leaf queue is wrong, or (first-use workload) the usage tracked for a group differs from the sum over the applications of its users"),
+            1424: dict(cls="oracle", props=["C14"], what="after quiescence a queue whose usage only grows through the scheduler's limit check is above its configured maximum"),
             1450: dict(cls="known", props=["C14"], finding="C14-alloc-leak-app-removed", what="known: allocation booked on a node while its application is being removed stays on the node (node id of the allocation still unset)"),
             1451: dict(cls="known", props=["C14"], finding="C14-concurrent-ledger-drift", what="known: after quiescence a queue ledger / node allocation list disagrees with the live applications (application removal, release, update or reload racing with the scheduling loop)"),
+            1452: dict(cls="known", props=["C14"], finding="C14-ugm-tracker-removed-in-use", what="known: the release of a user's last allocation removed the user (or group) tracker while another goroutine was booking an allocation of the same user on it: tracked usage below the sum over the applications (run in which user trackers can become empty)"),
             1490: dict(cls="corr", props=["C14"], what="the harness' cycle search and the Coq acyclicity check disagree"),
+            1491: dict(cls="corr", props=["C14"], what="the critical-section monitor of the lock wrapper was not available in the run (frame pointer walk failed its start-up comparison with runtime.Callers)"),
         },
     ),
 }
@@ -31,23 +45,26 @@ ENGINES = {
 PROPS = {
     "C14": dict(
         engines=["conc"], props_file="Props/C14.v", checkers=["Oracles/ConcCheck.v"],
-        coq_scan=["Conc", "Oracles/ConcCheck.v", "Props/C14.v", "Core/Ledger.v", "Core/Obs.v"], level="other",
+        coq_scan=["Conc", "Oracles/ConcCheck.v", "Props/C14.v", "Core/Ledger.v", "Core/Obs.v", "Base/Res.v"], level="other",
         assumptions=[
             "the lock-order theorem is about the nesting relation OBSERVED in the runs of this invocation: a nesting no workload exercised is not in it",
             "only locks taken through pkg/locking are traced (all scheduler objects); channels, sync.Cond, WaitGroup, atomic spins and raw sync.Mutex are outside the machine",
             "read and write acquisitions of an RWMutex are treated alike (conservative)",
+            "atomicity: split critical sections are detected for a method working on the lock of its own kind of object, from the frames seen at lock operations (two consecutive invocations from one call site without a lock operation in between cannot be told apart); the baseline of split sections of the unchanged tree (corpus/conc_split_baseline.json) was reviewed by hand; a split section on a path no workload exercises is not seen",
             "single partition, single RM; goroutine structure of pkg/scheduler/scheduler.go reproduced by the harness (application and allocation events share one goroutine)",
         ],
         trusted_extra=[
             "pkg/locking/locking_verif.go (tracing wrapper: one edge from every lock still held by the goroutine to the requested lock; goroutine id read from the runtime's g at an offset probed at start-up)",
+            "pkg/locking/locking_verif_sections.go (critical-section monitor: frame pointer walk compared with runtime.Callers at start-up; split = same lock released and requested again in write mode inside one frame at two different program counters)",
+            "corpus/conc_split_baseline.json (hand-reviewed list of the split critical sections of the unchanged tree)",
             "object labels in replays come from walking the scheduler objects; they do not enter the check",
         ],
-        explanation="PARTIAL: Coq theorem (unbounded: any number of threads and locks, any grant rule) that an acyclic lock nesting relation excludes wait-for cycles and guarantees progress, applied to the relation traced from the real scheduler on every run (coverage-bounded input); accounting predicates of C01/C03 evaluated on the final state of every stress run, watchdog, panic and go-deadlock observation, race detector in the thorough tier: all validation. Absence of data races and of blocked goroutines under every interleaving is NOT shown.",
+        explanation="PARTIAL: Coq theorem (unbounded: any number of threads and locks, any grant rule) that an acyclic lock nesting relation excludes wait-for cycles and guarantees progress, applied to the relation traced from the real scheduler on every run (coverage-bounded input); Coq theorem (any number of threads, any schedule) that read-modify-write operations without a split critical section are serialisable (no lost update, a guard checked inside the section is an invariant; refuted for split sections by a two-thread schedule), applied through the split sections traced on every run and a hand-reviewed baseline of the ones that exist on the unchanged tree; accounting predicates of C01/C03 evaluated on the final state of every stress run, watchdog, panic and go-deadlock observation, race detector in the thorough tier: all validation. Absence of data races and of blocked goroutines under every interleaving is NOT shown.",
         manifest=dict(
             category="other",
-            text="partial: (a) Coq theorem acyclic_no_deadlock / acyclic_progress for an abstract lock machine with any number of threads and locks (threads constrained only by a nesting relation E; RW locks treated as exclusive), with `acyclic E = true` decided by vm_compute on the instance-level relation E traced from the real scheduler by a build-tagged lock wrapper on every run - a proof about the OBSERVED nesting relation (coverage-bounded input, unbounded theorem); a cycle is reported with object labels and both call stacks; (b) validation only: concurrent stress runs (goroutine structure of the real service, REST readers, reloads, timers, seed-driven yields), watchdog for blocked goroutines, panics / fatal runtime errors, go-deadlock on a share of the runs, C01/C03 accounting predicates on the final state after quiescence, Go race detector in the thorough tier. Absence of data races and of blocked goroutines under every interleaving is NOT shown.",
-            note="theorems are about the abstract machine of coq/Conc/LockOrder.v; the tie to the code is the traced relation (pkg/locking/locking_verif.go, build tag verif) and is only as complete as the workloads; final-state predicates are the ones of Core/Ledger.v (C01/C03); kernel + vm_compute trusted",
-            technique="Coq lock-order theorem over a traced nesting relation + concurrent stress validation",
+            text="partial: (a) Coq theorem acyclic_no_deadlock / acyclic_progress for an abstract lock machine with any number of threads and locks (threads constrained only by a nesting relation E; RW locks treated as exclusive), with `acyclic E = true` decided by vm_compute on the instance-level relation E traced from the real scheduler by a build-tagged lock wrapper on every run - a proof about the OBSERVED nesting relation (coverage-bounded input, unbounded theorem); a cycle is reported with object labels and both call stacks; (c) Coq theorem nosplit_serializable for a second abstract machine (threads, one reader/writer lock, the variable it protects, invocations of lock / unlock / read / check / store instructions): lock discipline and no SPLIT critical section (lock released and taken again in write mode inside one invocation) imply that every reachable value is the result of some serial order of the invocations (sum of increments, guard invariant), with the split-section relation computed on the real code by the lock wrapper on every run and compared with a hand-reviewed baseline of 32 (method, object class) pairs (corpus/conc_split_baseline.json; a new one is reported); windows between the two parts of a split section are widened by seed-driven sleeps; (b) validation only: concurrent stress runs (goroutine structure of the real service, REST readers, reloads, timers, seed-driven yields; targeted workloads: queue ledgers with RM-side increments and decrements, a tight queue maximum, first use of many users at the same moment), watchdog for blocked goroutines, panics / fatal runtime errors, go-deadlock on a share of the runs, C01/C03 accounting predicates and the C05 usage predicates on the final state after quiescence, Go race detector in the thorough tier. Absence of data races and of blocked goroutines under every interleaving is NOT shown.",
+            note="theorems are about the abstract machines of coq/Conc/LockOrder.v and coq/Conc/Atomic.v; the tie to the code is the traced relation / the traced split sections (pkg/locking/locking_verif.go, locking_verif_sections.go, build tag verif) and is only as complete as the workloads; the baseline of benign split sections is a manual review; final-state predicates are the ones of Core/Ledger.v (C01/C03); kernel + vm_compute trusted",
+            technique="Coq lock-order theorem over a traced nesting relation + Coq serialisability theorem over traced split critical sections + concurrent stress validation",
         ),
     ),
 }
